@@ -99,8 +99,10 @@ impl<'a, P: ?Sized + PathImpl> PathMutImpl<'a, P> {
 		} else {
 			let bytes = self.as_bytes();
 			let mut start_offset = 0usize;
-			if (self.follows_authority || bytes.len() > 3) && bytes.ends_with(b"/./") {
-				// we can remove the `./` here.
+			if self.follows_authority && bytes == b"/./" {
+				// `/./` is the unambiguous spelling of the absolute path
+				// whose only segment is empty. Since `//` cannot be mistaken
+				// for an authority here, we can remove the `./`.
 				start_offset = 2;
 			};
 
@@ -109,7 +111,7 @@ impl<'a, P: ?Sized + PathImpl> PathMutImpl<'a, P> {
 			allocate_range(self.buffer, start..self.end, len);
 
 			self.buffer[start] = b'/';
-			self.end += len - start_offset;
+			self.end = self.end + len - start_offset;
 			let segment_offset = start + 1;
 			self.buffer[segment_offset..self.end].copy_from_slice(segment.as_bytes());
 		}
